@@ -1,13 +1,13 @@
 ---------------------------- MODULE ICS20_Trace ----------------------------
 EXTENDS Integers, Sequences, TLC, Json, IOUtils
-CONSTANTS Vouchers, HookReturnsAck
+CONSTANTS Vouchers, BackDenoms, HookReturnsAck
 Trace == ndJsonDeserialize(IOEnv.TRACE_FILE)
-VARIABLES l, enabled, vbal, esc, sup, tok, registered, pairon, ext, xreg, xbad, mx, last
+VARIABLES l, enabled, vbal, esc, sup, tok, registered, pairon, ext, xreg, xbad, mx, out, last
 AmtClasses == {}
 RecvClasses == {}
 INSTANCE ICS20
 ln(k) == Trace[k]
-TInit == l = 0 /\ enabled = TRUE /\ vbal = <<>> /\ esc = <<>> /\ sup = <<>> /\ tok = <<>> /\ registered = <<>> /\ pairon = <<>> /\ ext = <<>> /\ xreg = FALSE /\ xbad = FALSE /\ mx = 0 /\ last = [act |-> "None", res |-> "ok"]
+TInit == l = 0 /\ enabled = TRUE /\ vbal = <<>> /\ esc = <<>> /\ sup = <<>> /\ tok = <<>> /\ registered = <<>> /\ pairon = <<>> /\ ext = <<>> /\ xreg = FALSE /\ xbad = FALSE /\ mx = 0 /\ out = <<>> /\ last = [act |-> "None", res |-> "ok"]
 Report(k, name, holds) == holds \/ PrintT(<<"VIOL", k, name>>)
 IsStep(k) == ln(k).ev # "Reset"
 A(k) == ln(k).args
@@ -26,6 +26,18 @@ Judge(k) ==
         \/ (ext[D(k)] /\ vbal'[D(k)] = vbal[D(k)] /\ tok'[D(k)] = tok[D(k)] + N(k) /\ esc'[D(k)] = esc[D(k)] /\ sup'[D(k)] = sup[D(k)] /\ mx' = mx - N(k)))
   /\ Report(k, "C16.FailedTransferNoEffect", (ln(k).ev = "Recv" /\ ~ln(k).wrapped_success) => UNCHANGED <<vbal, esc, sup, tok>>)
   /\ Report(k, "C16.OtherDenomsUntouched", ln(k).ev = "Recv" => \A d \in Vouchers \ {D(k)} : vbal'[d] = vbal[d] /\ esc'[d] = esc[d] /\ (tok'[d] = tok[d] \/ (ext'[d] /\ ext'[D(k)])))   \* vouchers of one external pair share its token
+  (* the outbound direction through the middleware: the transfer application's outcome is the outcome *)
+  /\ Report(k, "C16.SendBackBurnsExactly", ln(k).ev = "SendBack" =>
+        IF ln(k).res = "ok" THEN vbal'[D(k)] = vbal[D(k)] - N(k) /\ sup'[D(k)] = sup[D(k)] - N(k) /\ ln(k).st[D(k)].committed
+                                 /\ \A d \in Vouchers \ {D(k)} : vbal'[d] = vbal[d] /\ sup'[d] = sup[d]
+        ELSE UNCHANGED <<vbal, sup, esc, tok>>)
+  /\ Report(k, "C16.SettleIsTransferOutcome", (ln(k).ev = "Settle" /\ ln(k).res = "ok") =>
+        /\ ~ln(k).st[D(k)].committed
+        /\ IF A(k).outcome = "success" THEN UNCHANGED <<vbal, sup>>
+           ELSE vbal' = [vbal EXCEPT ![D(k)] = @ + out[D(k)]] /\ sup' = [sup EXCEPT ![D(k)] = @ + out[D(k)]]
+        /\ UNCHANGED <<esc, tok>>)
+  /\ Report(k, "C16.SettledAtMostOnce", (ln(k).ev = "Settle" /\ ln(k).res = "ok") => (out[D(k)] > 0 /\ ~ln(k).again))
+  /\ Report(k, "C16.FailedSettleNoEffect", (ln(k).ev = "Settle" /\ ln(k).res # "ok") => UNCHANGED <<vbal, sup, esc, tok>>)
 C_Step(k) ==
   CASE ln(k).ev = "Recv" -> /\ RecvEff(D(k), A(k).amt, A(k).recv)
                             /\ ln(k).wrapped_success = TransferOK(A(k).amt, A(k).recv)
@@ -36,13 +48,15 @@ C_Step(k) ==
     [] ln(k).ev = "RegisterExt" -> RegisterExtEff(A(k).bad) /\ (ln(k).res = "ok") = RegisterExtOK
     [] ln(k).ev = "AddExt" -> AddExtEff(D(k)) /\ (ln(k).res = "ok") = AddExtOK(D(k))
     [] ln(k).ev = "Fund" -> FundEff(A(k).n)
+    [] ln(k).ev = "SendBack" -> SendBackEff(D(k), A(k).amt) /\ (ln(k).res = "ok") = SendBackOK(D(k), A(k).amt)
+    [] ln(k).ev = "Settle" -> SettleEff(D(k), A(k).outcome) /\ (ln(k).res = "ok") = SettleOK(D(k))
     [] OTHER -> FALSE
 Conform(k) == IsStep(k) => (C_Step(k) \/ PrintT(<<"DRIFT", k, ln(k).ev>>))
 F(k, f) == [d \in Vouchers |-> ln(k).st[d][f]]
 TNext == LET k == l + 1 IN
   /\ l < Len(Trace) /\ l' = k
   /\ enabled' = ln(k).st.enabled /\ vbal' = F(k, "vbal") /\ esc' = F(k, "esc") /\ sup' = F(k, "sup") /\ tok' = F(k, "tok")
-  /\ registered' = F(k, "registered") /\ pairon' = F(k, "pairon") /\ ext' = F(k, "ext") /\ xreg' = ln(k).st.xreg /\ xbad' = ln(k).st.xbad /\ mx' = ln(k).st.mx
+  /\ registered' = F(k, "registered") /\ pairon' = F(k, "pairon") /\ ext' = F(k, "ext") /\ xreg' = ln(k).st.xreg /\ xbad' = ln(k).st.xbad /\ mx' = ln(k).st.mx /\ out' = F(k, "out")
   /\ last' = [act |-> ln(k).ev, res |-> ln(k).res]
   /\ Judge(k) /\ Conform(k)
 TSpec == TInit /\ [][TNext]_<<l, vars>>
